@@ -158,7 +158,7 @@ class Gen:
   def time_expr(self) -> str:
     rng = self.rng
     forms = ["clock", "clock-fraction", "s", "s", "ms", "m", "h"]
-    if self.env.frame_rate is not None:
+    if self.env.frame_rate is not None or getattr(self, "default_fps", False):
       forms += ["clock-frames", "f", "f"]
     if self.env.tick_rate is not None:
       forms += ["t", "t"]
@@ -172,7 +172,7 @@ class Gen:
     if f == "clock-fraction":
       return "00:00:%02d.%s" % (sec, rng.choice(["5", "25", "500", "040", "001", "999", "3333", "0", "75"]))
     if f == "clock-frames":
-      return "00:00:%02d:%02d" % (sec, rng.randrange(0, self.env.frame_rate))
+      return "00:00:%02d:%02d" % (sec, rng.randrange(0, self.env.nominal))
     if f == "s":
       return rng.choice(["%ds" % sec, "%d.5s" % sec, "%d.25s" % sec, "0.%ds" % rng.randrange(1, 10), "%d.040s" % sec, "%d.0s" % sec,
                          "%d.123456789s" % sec, "%d.0000001s" % sec])
@@ -625,6 +625,13 @@ class Gen:
         root.set("ttp:frameRateMultiplier", mult)
         self.env.multiplier = Fraction(1000, 1001)
       self.classes.add("gen:fps-%d%s" % (fr, "-ntsc" if mult else ""))
+    elif rng.random() < 0.45:
+      # no ttp:frameRate: the default of 30 applies to frame expressions, and a multiplier given alone still applies
+      self.default_fps = True
+      if rng.random() < 0.6:
+        root.set("ttp:frameRateMultiplier", "1000 1001")
+        self.env.multiplier = Fraction(1000, 1001)
+      self.classes.add("gen:fps-default%s" % ("-ntsc" if self.env.multiplier != 1 else ""))
     if rng.random() < 0.55:
       tr = rng.choice(TICK_RATES)
       root.set("ttp:tickRate", str(tr))
